@@ -28,6 +28,7 @@ import (
 	"fmt"
 	"os"
 	"reflect"
+	"sort"
 	"strings"
 	"sync"
 	"sync/atomic"
@@ -44,6 +45,9 @@ import (
 func main() { vf.Main("C04", "exploration", run) }
 
 func run(c *vf.Ctx) {
+	if os.Getenv("C04_DUMP_CLASSES") != "" {
+		dumpClasses = map[string]map[string]bool{}
+	}
 	restore := smbgen.Silence()
 	defer restore()
 	u := smbgen.Setup(c, restore)
@@ -100,6 +104,9 @@ func run(c *vf.Ctx) {
 	c.Set("assignments_rejected_as_inconsistent", rejected)
 	c.Set("deviation_bound_completed", map[string]int{"zero_base": c.Pick(3, 4), "full_base": c.Pick(2, 3)})
 	tally.Publish()
+	if p := os.Getenv("C04_DUMP_CLASSES"); p != "" {
+		writeDumpedClasses(p)
+	}
 }
 
 // libraryOffsetConvention: the structures of the transaction family (and the raw/mpx reads and writes) carry
@@ -420,12 +427,106 @@ type worker struct {
 	baseInst [2]command_interface.CommandInterface
 	rejected int64
 	sample   map[string]any
+	cur      *refsmb.Assign // the assignment eval is judging (nil in the other passes)
 }
 
 func (w *worker) key(parts string) string { return "C04/" + w.cmd.Name + "/" + parts }
 
 func (w *worker) check(key string, ok bool, wit func() string) bool {
-	return w.t.Check(w.cmd.Name, key, ok, wit)
+	res := w.t.Check(w.cmd.Name, key, ok, wit)
+	if ok || w.cur == nil {
+		return res
+	}
+	// Every obligation of the main lattice that is a KNOWN finding is identified by the inputs that fail: the
+	// minimal classes (base, set of explicitly set fields) failing on the unchanged tree are committed in
+	// known_key_classes.json (generated with C04_DUMP_CLASSES on the unchanged tree, both tiers; never written by
+	// a check run). A failing case outside them is a different violation of the same obligation.
+	sub := strings.TrimPrefix(key, "C04/"+w.cmd.Name+"/")
+	if sub == "unmarshal" || strings.Contains(sub, "/input-class:") {
+		return res // has its own list (known_unmarshal_classes.json)
+	}
+	cls := devClass(w.cur)
+	if dumpClasses != nil {
+		dumpMu.Lock()
+		k := w.cmd.Name + "/" + sub
+		if dumpClasses[k] == nil {
+			dumpClasses[k] = map[string]bool{}
+		}
+		dumpClasses[k][cls] = true
+		dumpMu.Unlock()
+	}
+	if list, known := knownKeyClasses[w.cmd.Name+"/"+sub]; known && !explainedBy(list, cls) {
+		w.t.Check(w.cmd.Name, key+"/input-class:"+cls, false, wit)
+	}
+	return res
+}
+
+var (
+	dumpMu      sync.Mutex
+	dumpClasses map[string]map[string]bool
+)
+
+//go:embed known_key_classes.json
+var knownKeyClassesJSON []byte
+
+var knownKeyClasses = func() map[string][][]string {
+	var raw map[string][]string
+	if err := json.Unmarshal(knownKeyClassesJSON, &raw); err != nil {
+		panic("known_key_classes.json: " + err.Error())
+	}
+	out := map[string][][]string{}
+	for k, l := range raw {
+		for _, c := range l {
+			out[k] = append(out[k], strings.Split(c, ","))
+		}
+	}
+	return out
+}()
+
+func explainedBy(list [][]string, cls string) bool {
+	have := strings.Split(cls, ",")
+	for _, k := range list {
+		if k[0] != have[0] {
+			continue
+		}
+		all := true
+		for _, f := range k[1:] {
+			found := false
+			for _, h := range have[1:] {
+				found = found || h == f
+			}
+			all = all && found
+		}
+		if all {
+			return true
+		}
+	}
+	return false
+}
+
+// writeDumpedClasses reduces the collected failing classes to the minimal ones per key and writes them.
+func writeDumpedClasses(path string) {
+	out := map[string][]string{}
+	for k, cl := range dumpClasses {
+		var all [][]string
+		for c := range cl {
+			all = append(all, strings.Split(c, ","))
+		}
+		for _, c := range all {
+			minimal := true
+			for _, o := range all {
+				if len(o) < len(c) && o[0] == c[0] && explainedBy([][]string{o}, strings.Join(c, ",")) {
+					minimal = false
+				}
+			}
+			if minimal {
+				out[k] = append(out[k], strings.Join(c, ","))
+			}
+		}
+		sort.Strings(out[k])
+	}
+	b, _ := json.MarshalIndent(out, "", " ")
+	os.WriteFile(path, b, 0o644)
 }
 
 func (w *worker) prepare() {
@@ -461,6 +562,8 @@ func copyFields(cmd *refsmb.Cmd, dst, src command_interface.CommandInterface) {
 
 func (w *worker) eval(a *refsmb.Assign, r *explore.Run) {
 	cmd := w.cmd
+	w.cur = a
+	defer func() { w.cur = nil }()
 	x, err := a.Build()
 	if err != nil {
 		w.rejected++
